@@ -161,7 +161,9 @@ class ExprGen:
     def field_expr(self, parent_type, fname, field, depth) -> Optional[dict]:
         ch, g = self.ch, self.g
         named = g["named"](field.type)
-        e: Dict[str, Any] = {"gql": fname, "parent": parent_type.name, "args": {}, "alias": None, "sub": [], "on": {}}
+        e: Dict[str, Any] = {"gql": fname, "parent": parent_type.name, "args": {}, "alias": None, "sub": [], "on": {},
+                             "positional": bool(ch.draw("e.positional", 2)),
+                             "required_order": [an for an, a in field.args.items() if g["nn"](a.type)]}
         if g["leaf"](named):
             if field.args:
                 e["how"] = "method"
@@ -337,8 +339,20 @@ def interpret(e: dict, pkg, schema, snake: bool, root_kind: Optional[str] = None
             if not cand:
                 raise Unresolvable("%s.%s(%s=)" % (holder.__name__, attr, an))
             kwargs[cand[0]] = build_value(vs, pkg)
+        pos = []
+        if e.get("positional"):
+            # non-null arguments are the method's positional parameters, in schema order
+            plist = list(inspect.signature(member).parameters.values()) if params else []
+            positional_ok = [p_.name for p_ in plist if p_.kind in (p_.POSITIONAL_ONLY, p_.POSITIONAL_OR_KEYWORD)]
+            want = []
+            for an in e.get("required_order", []):
+                cand = [c for c in py_name(an, snake) if c in kwargs]
+                if cand:
+                    want.append(cand[0])
+            if want and len(positional_ok) >= len(want):
+                pos = [kwargs.pop(n_) for n_ in want]
         try:
-            obj = member(**kwargs)
+            obj = member(*pos, **kwargs)
         except Exception as ex:  # noqa: the generated builder method itself failed
             raise BuilderRaised("%s.%s(**%r) raised %s: %s" % (holder.__name__, attr, sorted(kwargs), type(ex).__name__, str(ex)[:200]))
     if e["alias"]:
